@@ -68,11 +68,11 @@ var colC11 = vstat.New("C11", "c11.wiring")
 
 func TestVerifWiringC11(t *testing.T) {
 	rig.Certs()
-	colC11.Mandatory("idle:h2", "idle:http/1.1", "idle:no-alpn", "stall")
+	colC11.Mandatory("idle:h2", "idle:http/1.1", "idle:no-alpn", "stall", "stall+idle-timeout-disabled")
 	vstat.Run(t, vstat.Spec[idleScript]{Col: colC11, Quick: 300, Thorough: 5000,
 		Gen: func(t *rapid.T) idleScript {
-			return idleScript{IdleMs: rapid.SampledFrom([]int64{50, 1000, 180000}).Draw(t, "idle"), HSMs: rapid.SampledFrom([]int64{5, 1000, 10000}).Draw(t, "hs"),
-				ALPN: rapid.SampledFrom([]string{"h2", "http/1.1", ""}).Draw(t, "alpn"), Mode: rapid.SampledFrom([]string{"idle", "idle", "stall"}).Draw(t, "mode"), NReq: rapid.IntRange(1, 3).Draw(t, "nreq")}
+			return idleScript{IdleMs: rapid.SampledFrom([]int64{0, 50, 1000, 180000}).Draw(t, "idle"), HSMs: rapid.SampledFrom([]int64{5, 1000, 10000}).Draw(t, "hs"),
+				ALPN: rapid.SampledFrom([]string{"h2", "http/1.1", ""}).Draw(t, "alpn"), Mode: rapid.SampledFrom([]string{"idle", "idle", "stall", "stall-partial"}).Draw(t, "mode"), NReq: rapid.IntRange(1, 3).Draw(t, "nreq")}
 		},
 		Exec: func(s idleScript) *vstat.Violation {
 			var viol *vstat.Violation
@@ -84,6 +84,9 @@ func TestVerifWiringC11(t *testing.T) {
 				if s.Mode == "stall" {
 					plan = rig.ConnPlan{Kind: "silent", Limit: -1}
 				}
+				if s.Mode == "stall-partial" {
+					plan = rig.ConnPlan{Kind: "serve", ALPN: s.ALPN, Limit: int64(20 + 30*s.NReq), LimitMode: "stall"} // goes silent inside its ClientHello
+				}
 				t0 := time.Now()
 				r, err := rig.StartClient(p, plan, nil, "w")
 				if err != nil {
@@ -92,8 +95,11 @@ func TestVerifWiringC11(t *testing.T) {
 				}
 				rig.Wait()
 				closed := func() bool { return r.Server.Closes.Load() > 0 }
-				if s.Mode == "stall" {
+				if s.Mode == "stall" || s.Mode == "stall-partial" {
 					cls = "stall"
+					if idle == 0 {
+						cls = "stall+idle-timeout-disabled"
+					}
 					time.Sleep(time.Until(t0.Add(hs + 2*time.Millisecond)))
 					rig.Wait()
 					if !closed() {
@@ -107,7 +113,9 @@ func TestVerifWiringC11(t *testing.T) {
 						cls = "idle:" + map[string]string{"h2": "h2", "http/1.1": "http/1.1", "": "no-alpn"}[proto]
 						time.Sleep(idle + 1500*time.Millisecond)
 						rig.Wait()
-						if !closed() {
+						if idle == 0 {
+							cls = "idle-timeout-disabled" // 0 switches the idle timeout off: nothing to demand
+						} else if !closed() {
 							time.Sleep(10 * idle)
 							rig.Wait()
 							viol = vstat.Violf("wiring:"+cls+"|not-closed-after-idle-timeout", "-timeout-http-idle=%v: %s connection idle for %v after serving %d request(s) is still open (after 10x more: closed=%v)", idle, cls, idle+1500*time.Millisecond, s.NReq, closed())
